@@ -339,6 +339,9 @@ def main(argv):
 
     print(f"{pid} {tier} seed={seed}: cases={len(results)}/{len(cases)} nontrivial={len(nontrivial_keys)} "
           f"violations={len(new)} known={sum(len(v[1]) for v in known_hit.values())} wall={wall:.1f}s")
+    if os.environ.get("VERIF_DUMP"):
+        with open(os.environ["VERIF_DUMP"], "w") as f:
+            json.dump(_jsonable(results), f)
     if os.environ.get("VERIF_DEBUG"):
         for r in sorted(results, key=lambda r: -r["wall_s"])[:12]:
             print("  slow:", r["key"], r["wall_s"], json.dumps(case_by_key[r["key"]])[:300])
